@@ -207,7 +207,7 @@ def _complete(tree):
         return False
 
 
-def run_one(text, d, other, level, count_work, all_targets=False):
+def run_one(text, d, other, level, count_work, all_targets=False, exclude=True):
     """Returns (fails, info). fails: list of (bucket, detail)."""
     import sqlglot
     from sqlglot import ErrorLevel
@@ -261,6 +261,10 @@ def run_one(text, d, other, level, count_work, all_targets=False):
         # valid, unmutated statements are generated into EVERY dialect (dialect-specific generator helpers are where a
         # missing None-check hides); everything else into its own and one drawn dialect
         for target in (sqlcore.dialect_names() if all_targets and info["valid"] else dict.fromkeys((d, other))):
+            if exclude and target in MYSQL_FAMILY and text.upper().count("FULL ") >= 4:
+                # known finding C05-nested-full-join-exponential: excluded by construction, counted
+                info["excluded_full_join"] = info.get("excluded_full_join", 0) + 1
+                continue
             counter2 = _Counter(bound(n)) if count_work else None
             try:
                 if counter2:
@@ -287,6 +291,7 @@ def run_one(text, d, other, level, count_work, all_targets=False):
     return fails, info
 
 
+MYSQL_FAMILY = ("mysql", "doris", "starrocks", "singlestore")
 _WORK_FAILS = [0]
 WORK_FAIL_STOP = 6
 
@@ -308,6 +313,8 @@ def check_case(case, res=None):
     unmutated = case["kind"] == "V" or (case["kind"] == "F" and not case.get("muts"))
     fails, info = run_one(text, case["dialect"], case["other"], case["level"], case.get("count_work", False), all_targets=unmutated and not case.get("own_only"))
     out = []
+    if res is not None and info.get("excluded_full_join"):
+        res.excluded["C05-nested-full-join-exponential"] += info["excluded_full_join"]
     if res is not None and any(b.startswith("work-bound") for b, _ in fails):
         _WORK_FAILS[0] += 1
     for b, det in fails:
@@ -410,7 +417,7 @@ def run_shard(spec, seed, res, only_bucket=None):
 def replay(case):
     logging.getLogger("sqlglot").setLevel(logging.CRITICAL)
     if "text" in case:
-        f, _ = run_one(case["text"], case["dialect"], case.get("other", ""), case["level"], True)
+        f, _ = run_one(case["text"], case["dialect"], case.get("other", ""), case["level"], True, exclude=not case.get("no_exclusion"))
         return [(("strict|" if case.get("strict") else "garbage|") + b, d) for b, d in f]
     return check_case(case, None)
 
